@@ -6,7 +6,7 @@ import os
 def run_syntax(ctx, cases_path, cfg=None, timeout_s=1700):
     """TLC on Syntax_<tier>.cfg (or the given cfg); CASE records go to cases_path.
     Any model-level error (an invariant of the model violated, TLC failure) is exit 2: ctx.tlc raises."""
-    cfg = cfg or "Syntax_%s.cfg" % ctx.tier
+    cfg = cfg or os.environ.get("VERIF_SYNTAX_CFG") or "Syntax_%s.cfg" % ctx.tier   # (the env override is for development only)
     workers = int(os.environ.get("VERIF_TLC_WORKERS") or 8)
     return ctx.tlc("syntax", "Syntax", cfg, cases_path=cases_path, timeout_s=timeout_s, workers=workers)
 
